@@ -45,11 +45,14 @@ Definition atomic_ok (G : nat) (h : list chev) : bool :=
 
 (* a read never shows a version that no COMMITTED write produced (the history is complete, so every
    committed write has returned): tags of aborted or never-committed transactions must not be observed *)
+Definition count_map (w : list (obj * N)) : amap :=
+  fold_left (fun m p => aset m (fst p) (aget m (fst p) + 1)%N) w [].
+
 Definition reads_ok (h : list chev) : bool :=
-  let w := retW h in
+  let cm := count_map (retW h) in      (* object -> number of committed writes *)
   forallb (fun e => match e with
                     | HRet _ (ResR vs _) =>
-                        forallb (fun p => N.eqb (snd p) 0 || N.leb (snd p) (N.of_nat (count_o (fst p) w))) vs
+                        forallb (fun p => N.eqb (snd p) 0 || N.leb (snd p) (aget cm (fst p))) vs
                     | _ => true
                     end) h.
 
